@@ -957,7 +957,7 @@ mod if_alloc {
         )
         where
             MutexType: RawMutex,
-            A: RingBuf<Item = T>,
+            A: RingBuf<Item = T> + Send,
             T: Send,
         {
             let inner = alloc::sync::Arc::new(GenericChannelSharedState {
